@@ -113,6 +113,7 @@ func c10(c *Ctx) {
 	c.RunCases(cases)
 	c10Wire(c)
 	c10Sasl(c)
+	c10Reconnect(c)
 }
 
 // c10Wire: the rule seen from the server's side. A client with flood protection on sends a burst over a real
@@ -359,4 +360,61 @@ func c10Wire(c *Ctx) {
 		c.RunCases([]Case{{Desc: desc + ": " + strings.Join(shown, " "), Spec: []string{"spec10ws 400000000 " + strings.Join(obs, ",")}, Tag: map[bool]string{false: "wire-burst", true: "wire-burst/toggled"}[toggled],
 			Key: fmt.Sprintf("%v/%d/%d", lens, s, c.Seed), Replay: map[string]interface{}{"op": "wire-burst", "lengths": lens, "arrivals": shown}}})
 	}
+}
+
+// c10Reconnect: the penalty "decays in real time" - and in no other way: the same client sends a burst, closes the
+// connection, connects again at once and goes on sending. The lines of both connections, in the order they reached the
+// two servers, are one run of the same rate limiter and are judged as one by the window predicate.
+func c10Reconnect(c *Ctx) {
+	desc := "burst of 4 lines of 100 bytes, Close, Connect again at once, 4 more lines: both connections' lines judged as one run"
+	c.Journal("C10 " + desc)
+	sess, err := newSession(func(cfg *client.Config) { cfg.Flood = false }, nil)
+	if err != nil {
+		c.Res.Inconclusive++
+		return
+	}
+	t0 := time.Now()
+	var obs, shown []string
+	collect := func(srv *memconn.Conn, n int) bool {
+		go func() {
+			for i := 0; i < 4; i++ {
+				sess.conn.Raw("PRIVMSG #c :" + strings.Repeat("y", 88))
+			}
+		}()
+		if !srv.WaitLines(n, 90*time.Second) {
+			return false
+		}
+		lines, times := srv.Lines(), srv.LineTimes()
+		for k := range lines[:n] {
+			obs = append(obs, fmt.Sprintf("%d:%d", len(lines[k]), times[k].Sub(t0).Nanoseconds()))
+			shown = append(shown, fmt.Sprintf("%dB@%.2fs", len(lines[k]), times[k].Sub(t0).Seconds()))
+		}
+		return true
+	}
+	if !collect(sess.srv, 6) || !sess.close() {
+		c.Res.Inconclusive++
+		return
+	}
+	shown = append(shown, "(Close, Connect)")
+	if sess.conn.Connect() != nil {
+		c.Res.Inconclusive++
+		return
+	}
+	var srv2 *memconn.Conn
+	select {
+	case srv2 = <-sess.conns:
+	case <-time.After(5 * time.Second):
+		c.Res.Inconclusive++
+		return
+	}
+	sess.srv = srv2
+	ok := collect(srv2, 6)
+	sess.close()
+	c.Res.Traces++
+	if !ok {
+		c.Res.Inconclusive++
+		return
+	}
+	c.RunCases([]Case{{Desc: desc + ": " + strings.Join(shown, " "), Spec: []string{"spec10ws 400000000 " + strings.Join(obs, ",")}, Tag: "wire-burst/across-reconnect",
+		Key: fmt.Sprintf("reconnect/%d", c.Seed), Replay: map[string]interface{}{"op": "wire-burst-across-reconnect", "arrivals": shown}}})
 }
